@@ -125,26 +125,44 @@ Theorem getattr_trait_transcriptions_agree :
 Proof. exact OwnerLedger.getattr_trait_transcriptions_agree. Qed.
 Print Assumptions getattr_trait_transcriptions_agree.
 
-(* the two paths of the current tree that do NOT satisfy the discipline (known findings, reproduced on the
-   implementation under PYTHONMALLOC=debug): setattr_delegate holds the delegate, has_traits_setattro the trait
-   object, only as borrowed references across the target's validator *)
-Theorem borrowed_across_callback_refuted :
-  (Owner.check Owner.PIN [] [] (Owner.p_setattr_delegate 9) = false /\
-   exists d e adv, Owner.run Owner.PIN (Owner.p_setattr_delegate 9) (Owner.start d e) adv = false) /\
-  (Owner.check Owner.PIN [] [] (Owner.p_has_traits_setattro 9) = false /\
-   exists d e adv, Owner.run Owner.PIN (Owner.p_has_traits_setattro 9) (Owner.start d e) adv = false).
-Proof. split; [exact Owner.setattr_delegate_borrowed_refuted | exact Owner.has_traits_setattro_borrowed_refuted]. Qed.
-Print Assumptions borrowed_across_callback_refuted.
+(* trait objects and delegates (repairs e2bc43c, ec2634d, fa529d7, 8fb7f44): setattr_delegate (delegate taken from the
+   instance dict or computed by a method — a fresh object with no other owner —, every error exit), has_traits_setattro,
+   has_traits_getattro and trait_property_changed hold OWNED references to the delegate, the delegated-to trait and the
+   trait object while user code runs: no excluding hypothesis is left *)
+Theorem trait_and_delegate_paths_use_only_owned_references :
+  forall dname tname d e adv,
+    (forall a b c, Owner.run Owner.PIN (Owner.p_setattr_delegate dname tname a b c) (Owner.start d e) adv = true) /\
+    Owner.run Owner.PIN (Owner.p_has_traits_setattro tname) (Owner.start d e) adv = true /\
+    Owner.run Owner.PIN (Owner.p_has_traits_getattro tname) (Owner.start d e) adv = true /\
+    (forall g, Owner.run Owner.PIN (Owner.p_trait_property_changed tname g) (Owner.start d e) adv = true).
+Proof. exact Owner.trait_and_delegate_paths_use_only_owned_references. Qed.
+Print Assumptions trait_and_delegate_paths_use_only_owned_references.
 
-(* the same shape on the read path (has_traits_getattro -> getattr_trait with a default callable that removes the
-   instance trait) and in trait_property_changed (the notifier list read before the property getter runs) *)
-Theorem borrowed_trait_on_read_and_property_changed_refuted :
-  (Owner.check Owner.PIN [] [] (Owner.p_has_traits_getattro 9) = false /\
-   exists d e adv, Owner.run Owner.PIN (Owner.p_has_traits_getattro 9) (Owner.start d e) adv = false) /\
-  (Owner.check Owner.PIN [] [] (Owner.p_trait_property_changed 9) = false /\
-   exists d e adv, Owner.run Owner.PIN (Owner.p_trait_property_changed 9) (Owner.start d e) adv = false).
-Proof. exact Owner.borrowed_trait_on_read_and_property_changed_refuted. Qed.
-Print Assumptions borrowed_trait_on_read_and_property_changed_refuted.
+(* call_notifiers iterates over its own snapshot of the notifier lists; iterating over the live list (seed C18-u1) is
+   refuted *)
+Theorem call_notifiers_snapshot :
+  (forall nlist d e adv, Owner.run Owner.PIN (Owner.p_call_notifiers nlist) (Owner.start d e) adv = true) /\
+  Owner.check Owner.PIN [] [] (Owner.p_call_notifiers_live_list 9) = false /\
+  exists d e adv, Owner.run Owner.PIN (Owner.p_call_notifiers_live_list 9) (Owner.start d e) adv = false.
+Proof. exact Owner.call_notifiers_snapshot. Qed.
+Print Assumptions call_notifiers_snapshot.
+
+(* the code BEFORE those repairs (borrowed delegate / trait object / notifier list across the callback): rejected by
+   the check, with witness adversaries — what the reversals seeded/rev-F27..F30-C18 bring back *)
+Theorem borrowed_variants_of_the_old_code_refuted :
+  (Owner.check Owner.PIN [] [] (Owner.p_setattr_delegate_borrowed 9) = false /\
+   exists d e adv, Owner.run Owner.PIN (Owner.p_setattr_delegate_borrowed 9) (Owner.start d e) adv = false) /\
+  (Owner.check Owner.PIN [] [] (Owner.p_has_traits_setattro_borrowed 9) = false /\
+   exists d e adv, Owner.run Owner.PIN (Owner.p_has_traits_setattro_borrowed 9) (Owner.start d e) adv = false) /\
+  (Owner.check Owner.PIN [] [] (Owner.p_has_traits_getattro_borrowed 9) = false /\
+   exists d e adv, Owner.run Owner.PIN (Owner.p_has_traits_getattro_borrowed 9) (Owner.start d e) adv = false) /\
+  (Owner.check Owner.PIN [] [] (Owner.p_trait_property_changed_borrowed 9) = false /\
+   exists d e adv, Owner.run Owner.PIN (Owner.p_trait_property_changed_borrowed 9) (Owner.start d e) adv = false).
+Proof.
+  split; [exact Owner.setattr_delegate_borrowed_refuted|]. split; [exact Owner.has_traits_setattro_borrowed_refuted|].
+  exact Owner.borrowed_trait_on_read_and_property_changed_refuted.
+Qed.
+Print Assumptions borrowed_variants_of_the_old_code_refuted.
 
 (* general form of T3's obligations (instantiated on the regenerated tables at run time):
    any tables passing the boolean check make func_index terminate inside the searched table for
